@@ -26,6 +26,8 @@ Oracle (three valued).  MUST, from the statement:
   * member name = lower-case of the identifier minus the whole `_`-separated words
     shared as a prefix by all members; minus the namespace prefix when there are
     fewer than two members or no shared word;
+    each member loses its OWN namespace prefix (prefixes of one namespace may differ in
+    length); with --accept-unprefixed a member without prefix keeps its whole identifier;
   * a public constant of a header is emitted once, c:type = its C name, a <type>
     matching the declaration, value in the type's range: as written when it is in
     range, unsigned types reduced modulo 2**width, strings verbatim, true/false.
@@ -33,6 +35,8 @@ UNSPECIFIED (executed, must not crash, counted, never flagged):
   * member names when one member is a word-prefix of another (quantifier carve-out);
   * member names when "all members" read as "all declared" and as "all public"
     give different answers (a private member changes the shared words / the count);
+  * member names when a member matches two namespace prefixes with different remainders
+    (FOO_LIB_C under symbol prefixes foo and foo_lib);
   * the whole enumeration when namespace-prefix removal is called for and a member
     carries no namespace prefix (the scanner then refuses the enumeration);
   * signed constants whose written value is outside the declared type's range (the
@@ -62,11 +66,26 @@ LEVEL = 'model_checking'
 CONFIGS = [
     {'id': 'A', 'symbol_prefixes': None},                 # default: symbol prefix "foo"
     {'id': 'B', 'symbol_prefixes': ['foo', 'bar']},       # two symbol prefixes
+    # configurations of the prefix-mix family (MIX_POOL): namespace prefixes of different length
+    # inside one enumeration, and --accept-unprefixed with prefixed and unprefixed members mixed
+    {'id': 'C', 'symbol_prefixes': ['foo', 'foolib']},
+    {'id': 'D', 'symbol_prefixes': ['foolib', 'foo']},
+    {'id': 'E', 'symbol_prefixes': ['foo', 'foo_lib', 'bar']},   # FOO_LIB_C matches two prefixes
+    {'id': 'F', 'symbol_prefixes': None, 'accept_unprefixed': True},
+    {'id': 'G', 'symbol_prefixes': ['foo', 'foolib'], 'accept_unprefixed': True},
 ]
+MAIN_CFGS = 2          # the main pool runs under A and B
+MIX_POOL = ['FOO_LOCAL', 'FOOLIB_REMOTE', 'FOO_A', 'FOOLIB_B', 'FOOLIB_X_A', 'FOO_LIB_C', 'BAR_A',
+            'MEDIUM_LEVEL', 'HIGH', 'FOO_LOW']
+AMBIG = object()
 
 
 def cfg_prefixes(cfg):
     return cfg['symbol_prefixes'] or ['foo']
+
+
+def cfg_accept(cfg):
+    return bool(cfg.get('accept_unprefixed'))
 
 
 POOL_QUICK = [
@@ -107,20 +126,28 @@ def is_word_prefix(a, b):
     return len(wa) <= len(wb) and wb[:len(wa)] == wa
 
 
-def strip_ns(ident, prefixes):
-    """ident minus the namespace prefix, or None when it carries none.
-    'maybe' (case-insensitive match only) is reported as None too (UNSPECIFIED)."""
+def strip_ns(ident, prefixes, accept_unprefixed=False):
+    """ident minus ITS OWN namespace prefix (each member is matched on its own: prefixes of one
+    namespace may differ in length).  None when it carries none and unprefixed symbols are not
+    accepted; the identifier itself when they are (--accept-unprefixed: nothing to remove);
+    AMBIG when several prefixes of the namespace match and give different remainders (which one
+    wins is not fixed by the statement).  A case-insensitive-only match counts as no match."""
+    cands = []
     for p in prefixes:
         for q in (p.upper() + '_', p.lower() + '_'):
-            if ident.startswith(q) and len(ident) > len(q):
-                return ident[len(q):]
-    return None
+            if ident.startswith(q) and len(ident) > len(q) and ident[len(q):] not in cands:
+                cands.append(ident[len(q):])
+    if len(cands) > 1:
+        return AMBIG
+    if cands:
+        return cands[0]
+    return ident if accept_unprefixed else None
 
 
-def names_under(idents_basis, public, prefixes):
+def names_under(idents_basis, public, prefixes, accept_unprefixed=False):
     """Member names for the public members when 'all members' = idents_basis.
-    Returns list of names, or None if some member needs namespace-prefix removal and
-    has no namespace prefix."""
+    Returns list of names (AMBIG entries possible), or None if some member needs namespace-prefix
+    removal and has no namespace prefix."""
     sw = shared_words(idents_basis) if len(idents_basis) >= 2 else []
     out = []
     for ident in public:
@@ -128,10 +155,10 @@ def names_under(idents_basis, public, prefixes):
             rest = words(ident)[len(sw):]
             out.append('_'.join(rest).lower())
         else:
-            s = strip_ns(ident, prefixes)
+            s = strip_ns(ident, prefixes, accept_unprefixed)
             if s is None:
                 return None
-            out.append(s.lower())
+            out.append(s if s is AMBIG else s.lower())
     return out
 
 
@@ -140,17 +167,18 @@ def enum_model(case):
     whole=False: the whole element is UNSPECIFIED (scanner may refuse the enumeration)."""
     members = case['members']
     prefixes = cfg_prefixes(CONFIGS[case['cfg']])
+    accept = cfg_accept(CONFIGS[case['cfg']])
     allid = [m[0] for m in members]
     pub = [m[0] for m in members if not m[2]]
     carve = any(i != j and is_word_prefix(allid[i], allid[j])
                 for i in range(len(allid)) for j in range(len(allid)))
-    n_all = names_under(allid, pub, prefixes)
-    n_pub = names_under(pub, pub, prefixes)
+    n_all = names_under(allid, pub, prefixes, accept)
+    n_pub = names_under(pub, pub, prefixes, accept)
     # the scanner may refuse the enumeration when namespace-prefix removal is called for
     # (under either reading of "all members") and some member carries no namespace prefix
     whole = n_all is not None and n_pub is not None
     names = None
-    if whole and not carve and n_all == n_pub:
+    if whole and not carve and n_all == n_pub and AMBIG not in n_all:
         names = n_all
     return {
         'tag': 'bitfield' if case['bitfield'] else 'enumeration',
@@ -184,7 +212,7 @@ def check_enum(case):
     """Execute one enumeration case.  -> (violations [(key, desc)], must, unspecified, outcome)"""
     cfg = CONFIGS[case['cfg']]
     decls = enum_decls(case)
-    res = scanrun.scan(decls, symbol_prefixes=cfg['symbol_prefixes'])
+    res = scanrun.scan(decls, symbol_prefixes=cfg['symbol_prefixes'], accept_unprefixed=cfg_accept(cfg))
     model = enum_model(case)
     viol = []
     must = unspec = 0
@@ -543,7 +571,8 @@ def render(case):
         head = 'typedef enum { %s } %s;' % (body, case['name']) if case['typedef'] else \
             'enum %s { %s };' % (case['name'], body)
         return '%s%s   /* symbol prefixes %s */' % ('/*< flags >*/ ' if case['bitfield'] else '', head,
-                                                   ','.join(cfg_prefixes(cfg)))
+                                                   ','.join(cfg_prefixes(cfg))
+                                                   + (', accept-unprefixed' if cfg_accept(cfg) else ''))
     return const_c_text(case).strip()
 
 
@@ -777,19 +806,24 @@ def run(ctx):
     deeplen = 5 if thorough else 4  # children over the sub-pool up to this length
     ctx.set(rule='ENUM: every sequence of distinct member identifiers of length 0..%d over a %d-identifier pool and of '
                  'length %d..%d over a %d-identifier sub-pool; x every private mask up to length %d, {no, one} private '
-                 'member beyond (sub-pool sequences; none for others); each under %d namespace configurations; values/bitfield/declaration form are a fixed '
+                 'member beyond (sub-pool sequences; none for others); each under %d namespace configurations; plus a prefix-mix family: every sequence of length 0..%d over %d identifiers '
+                 'under %d configurations (symbol prefixes foo+foolib in both orders, foo+foo_lib+bar, accept-unprefixed with '
+                 'one and two prefixes); values/bitfield/declaration form are a fixed '
                  'function of the sequence; plus all value tuples x bitfield x form on fixed names.  CONST: one '
                  'constant per scan: %d integer type spellings x alias depth 0..2 x %d values, untyped ints, strings, '
                  'doubles, booleans, non-header files, underscore names.  Every case runs the whole scanner pipeline '
                  'and the emitted GIR is compared with the reference model; non-trivial = case with at least one MUST '
                  'answer; transitions = generation steps (extension by one member, choice of private mask, choice of '
                  'value)'
-                 % (fulllen, len(pool), fulllen + 1, deeplen, len(deep_pool), maskfull, len(CONFIGS),
+                 % (fulllen, len(pool), fulllen + 1, deeplen, len(deep_pool), maskfull, MAIN_CFGS,
+                    4 if thorough else 3, len(MIX_POOL), len(CONFIGS) - MAIN_CFGS,
                     len(SPELLINGS_TYPEDEF) + len(SPELLINGS_BASIC) + len(SPELLINGS_GCONST) + len(FOREIGN),
                     len(int_value_menu(ctx.tier))),
             bounds={'enum_pool': pool, 'enum_deep_pool': deep_pool, 'enum_len_full_pool': fulllen,
                     'enum_len_sub_pool': deeplen, 'enum_all_masks_up_to': maskfull,
-                    'enum_values': len(ENUM_VALUES_T if thorough else ENUM_VALUES), 'configs': len(CONFIGS),
+                    'enum_values': len(ENUM_VALUES_T if thorough else ENUM_VALUES), 'configs': MAIN_CFGS,
+                    'mix_pool': MIX_POOL, 'mix_configs': [c['id'] for c in CONFIGS[MAIN_CFGS:]],
+                    'mix_len': 4 if thorough else 3,
                     'const_values': len(int_value_menu(ctx.tier)), 'alias_depth': 2,
                     'strings': len(STRINGS), 'doubles': len(DOUBLES_MUST) + len(DOUBLES_UNSPEC)})
     # ---- constants: one chunk per type spelling
@@ -802,13 +836,20 @@ def run(ctx):
     # ---- enumerations: chunks = root, each length-1 node, and the subtree below each length-2 node
     chunks = []
     common = (pool, deep_pool, maskfull, fulllen, deeplen)
-    for cfg in range(len(CONFIGS)):
+    for cfg in range(MAIN_CFGS):
         chunks.append((ctx.tier, cfg, [], False) + common)
         for a in range(len(pool)):
             chunks.append((ctx.tier, cfg, [a], False) + common)
             for b in range(len(pool)):
                 if a != b:
                     chunks.append((ctx.tier, cfg, [a, b], True) + common)
+    # prefix-mix family: namespace prefixes of different length / accept-unprefixed, own small pool
+    mixlen = 4 if thorough else 3
+    mcommon = (MIX_POOL, MIX_POOL, maskfull, 3, mixlen)
+    for cfg in range(MAIN_CFGS, len(CONFIGS)):
+        chunks.append((ctx.tier, cfg, [], False) + mcommon)
+        for a in range(len(MIX_POOL)):
+            chunks.append((ctx.tier, cfg, [a], True) + mcommon)
     for r in pmap(_work_enum, rotate(chunks, ctx.seed)):
         col.merge(r)
     values = ENUM_VALUES_T if thorough else ENUM_VALUES
@@ -820,6 +861,8 @@ def run(ctx):
         'gushort/unsigned short = 16 bits and guint/unsigned int = 32 bits (glibconfig.h) are taken as fixed widths',
         'gulong/gsize/guintptr/unsigned long/size_t: either 32- or 64-bit reduction accepted',
         'member-name oracle silent when a member is a word-prefix of another or when a private member changes the shared words',
+        'with --accept-unprefixed a member carrying no namespace prefix keeps its whole identifier (nothing to remove)',
+        'a member matching two namespace prefixes with different remainders (FOO_LIB_C under foo and foo_lib): name UNSPECIFIED',
         'deps/GLib-2.0.gir supplies the foreign aliases GQuark (guint32) and GPid (gint)',
     ]
     if len(ctx._outcomes) < 25 or len(ctx._nontrivial) < 1000:
@@ -834,7 +877,8 @@ def replay(ctx, case):
         case = dict(case)
         case['members'] = [list(m) for m in case['members']]
         decls = enum_decls(case)
-        res = scanrun.scan(decls, symbol_prefixes=CONFIGS[case['cfg']]['symbol_prefixes'])
+        res = scanrun.scan(decls, symbol_prefixes=CONFIGS[case['cfg']]['symbol_prefixes'],
+                           accept_unprefixed=cfg_accept(CONFIGS[case['cfg']]))
         print('model:', enum_model(case))
     else:
         decls = const_decls(case)
